@@ -299,11 +299,11 @@ def selftest_determinism(args, seed):
 
 REQUIRED = {
     "C10": {
-        "probes": ["compared_after_sharer_refit", "twin_dataset_switch_compared", "compared_after_interrupted_output", "compared_on_update_lineage", "compared_after_recovery", "set_params_on_shared_object", "nested_set_params", "route_clone_compared", "route_setp_compared", "pristine_compared", "evaluate_compared", "sharer_ran_on_same_data", "fitted_params_compared", "update_ok", "sweep_points", "config_pairs", "dataset_mutated_in_place", "compared_exception_outcome", "set_params_rejected", "torn_fit_observed", "y_passed", "shape_cases", "update_with_overlapping_index", "continued_with_copy"],
+        "probes": ["compared_after_sharer_refit", "twin_dataset_switch_compared", "compared_after_interrupted_output", "compared_on_update_lineage", "compared_after_recovery", "set_params_on_shared_object", "nested_set_params", "route_clone_compared", "route_setp_compared", "pristine_compared", "evaluate_compared", "sharer_ran_on_same_data", "fitted_params_compared", "update_ok", "sweep_points", "config_pairs", "dataset_mutated_in_place", "compared_exception_outcome", "set_params_rejected", "torn_fit_observed", "y_passed", "shape_cases", "update_with_overlapping_index", "continued_with_copy", "scale_cases", "compared_after_overwrite_either_way", "alloc_fail_propagated"],
         "faults": ["bad_data", "singular", "interrupt", "flaky", "bad_cuts"],
     },
-    "C01": {"probes": ["prange_permuted", "refit_on_other_data", "sharing_detector_ran", "param_changed", "data_mutated_in_place", "step_on_second_instance", "exhaustive_interval_cases"], "faults": ["singular", "interrupt", "bad_cuts", "bad_param"]},
-    "C17": {"probes": ["U_set_params", "U_fit_after_A_fit", "A_update_ok", "A_recovered_by_fit", "compared_after_failed_predict", "compared_after_recovery", "compared_on_update_lineage", "nonempty_expected", "exhaustive_script_cases", "dataset_mutated_in_place", "transform_judged"], "faults": ["bad_data", "interrupt", "flaky"]},
+    "C01": {"probes": ["prange_permuted", "refit_on_other_data", "sharing_detector_ran", "param_changed", "data_mutated_in_place", "step_on_second_instance", "exhaustive_interval_cases", "narrow_cuts_dtype", "cuts_buffer_reused", "scale_interval_rows"], "faults": ["singular", "interrupt", "bad_cuts", "bad_param"]},
+    "C17": {"probes": ["U_set_params", "U_fit_after_A_fit", "A_update_ok", "A_recovered_by_fit", "compared_after_failed_predict", "compared_after_recovery", "compared_on_update_lineage", "nonempty_expected", "exhaustive_script_cases", "dataset_mutated_in_place", "transform_judged", "alloc_fail_propagated"], "faults": ["bad_data", "interrupt", "flaky"]},
 }
 
 
